@@ -142,3 +142,9 @@ package stickycookie
 //@   modifies nothing
 //@   nopanic
 //@   ensures -1 <= result && result < len(s)
+
+//@ func NewFallbackValue
+//@   props C11
+//@   modifies nothing
+//@   ensures both_mandatory: (from == nil || to == nil) ==> result1 != nil && result0 == nil
+//@   ensures old_then_new: from != nil && to != nil ==> result1 == nil && result0 != nil && fresh(result0) && result0.from == from && result0.to == to
